@@ -22,6 +22,26 @@ def fuzz(name, test, seconds, **kw):
 NOT_CLAIMED = {}
 
 PROPS = {
+    "C01": dict(
+        technique="model-based PBT: generated scripts and choice paths against a recursive reference interpreter; all choice paths of each script enumerated (bounded)",
+        level_text="Scripts over the whole core language (lines with interpolation and tags, nested shortcut options with conditions, if/elseif/else, set/declare, "
+                   "jump by name and expression out of nested bodies, stop, call, immediate commands, 1-5 nodes over 1-3 readers, unreachable statements after "
+                   "jump/stop) are run by the real runner and by a reference interpreter written from the statement; traces (kind, node, text, tags, every "
+                   "option's text/tags/Disabled, end marker), host-function and command logs and final variables must be equal. Junk arguments are passed to Next "
+                   "whenever the previous element was not an option group. A second sub-check enumerates every choice sequence of each script (up to 256 paths). "
+                   "Search, not proof.",
+        level_note="The reference interpreter (harness/model_script_test.go) and the canonical printer are the trusted base; scripts are rendered in the canonical "
+                   "layout so that this check does not depend on C08. Traces are compared up to 60 elements; scripts running more than 300 statements without "
+                   "yielding are discarded (the runner recurses per non-yielding statement).",
+        rule="scripts from a recursive statement generator (depth <= 4, <= 70 statements) x a choice list x optional junk arguments; non-trivial = at least 3 elements "
+             "and (option chosen at nesting depth >= 2, or jump from a nested body, or elseif/else clause taken, or stop inside a nested body, or more than one "
+             "reader); all-paths: non-trivial = such a script with at least two paths; distinct = distinct serialised cases.",
+        assumptions=["choices are reduced modulo the number of options (out-of-range choices are outside the property's domain)"],
+        subs=[
+            rapid("flow", "TestC01Flow", 1500, 12000),
+            rapid("all-paths", "TestC01AllPaths", 150, 1500),
+        ],
+    ),
     "C02": dict(
         technique="PBT with a reference evaluator (typed trees printed with minimal/redundant parentheses and every spelling) + exhaustive operator-table and precedence-triple enumeration",
         level_text="Generated typed expression trees (depth <= 5, 1 in 7 nodes deliberately ill-typed in a third of the cases) over literals, variables holding "
